@@ -189,6 +189,29 @@ func runC01(c *fw.Ctx) {
 		c.Case(func(k *fw.K) { c01SharedLeaves(k) })
 	}
 
+	// ---------- roots whose shapes collide under ad-hoc keys (equal products, shared prefixes / suffixes across ranks), back-propagated one after the other ----------
+	for gi, group := range CollidingShapes {
+		gi, group := gi, group
+		c.Case(func(k *fw.K) {
+			k.Key("colliding-roots/%d", gi)
+			k.Count("colliding_root_groups", 1)
+			for _, shape := range group {
+				a, f := Shuffled(k.Rng, Unique(k.Rng, shape, 0.3, 1.5)), Shuffled(k.Rng, Unique(k.Rng, shape, 0.5, 2))
+				p := ref.Prog{{Op: "leaf", Shape: shape, Data: a.Data, Tracked: true}, {Op: "leaf", Shape: shape, Data: f.Data},
+					{Op: "pow", In: []int{0}, F: 2}, {Op: "mul", In: []int{1, 2}}}
+				vals, err := p.Eval()
+				if err != nil {
+					k.Failf("harness: %v", err)
+					return
+				}
+				k.Case = c01case{Family: "colliding root shapes", Prog: p, Roots: []int{3}}
+				if !c01OneRoot(k, p, vals, 3) {
+					return
+				}
+			}
+		})
+	}
+
 	// ---------- family 3: deep ladders / fan-out chains (bounded-application clause) ----------
 	depths := []int{8, 16, 24, 32, 48, 64}
 	if !c.Quick() {
